@@ -86,7 +86,7 @@ def extractFileEvents : List String := [
   "guard:FileExistsError:os.path.exists(outfile) and (not overwrite_existing)",
   "call:self._encode_file_path_for_platform",
   "call:stormlib.func",
-  "call:self._throw_if_operation_fails",
+  "guard:ValueError:result == 0",   -- (the failure check, written in place or as a private guard helper: the reader inlines pure-guard helpers)
   "return"
 ]
 def wavMetadataEvents : List String := [
